@@ -447,4 +447,35 @@ theorem truncation_safe_lemma (hdr : List Nat) (s : List Int) (hh : hdr.length =
     · rw [if_neg hp, if_pos]
       simp only [pyCeilDiv, headerLen] at *; omega
 
+/-! ## permutations of sample lists -/
+
+theorem length_permute {α} (d : α) (l : List α) (f : Nat → Nat) : (permute d l f).length = l.length := by
+  simp [permute]
+
+theorem permute_getD (l : List Int) (f : Nat → Nat) (i : Nat) (hi : i < l.length) :
+    (permute 0 l f).getD i 0 = l.getD (f i) 0 := by
+  simp only [permute]
+  exact getD_map_range _ _ _ hi
+
+theorem eq_of_getD (l₁ l₂ : List Int) (hl : l₁.length = l₂.length) (h : ∀ i, i < l₁.length → l₁.getD i 0 = l₂.getD i 0) : l₁ = l₂ := by
+  apply List.ext_getElem hl
+  intro i h1 h2
+  have := h i h1
+  simpa [List.getD_eq_getElem?_getD, List.getElem?_eq_getElem h1, List.getElem?_eq_getElem h2] using this
+
+theorem permute_permute (l : List Int) (f g : Nat → Nat)
+    (hg : ∀ i, i < l.length → g i < l.length) (hfg : ∀ i, i < l.length → f (g i) = i) :
+    permute 0 (permute 0 l f) g = l := by
+  apply eq_of_getD
+  · simp [length_permute]
+  · intro i hi
+    rw [length_permute, length_permute] at hi
+    rw [permute_getD _ _ _ (by rw [length_permute]; exact hi), permute_getD _ _ _ (hg i hi), hfg i hi]
+
+theorem getD_mem_or_zero (l : List Int) (i : Nat) : l.getD i 0 ∈ l ∨ l.getD i 0 = 0 := by
+  by_cases h : i < l.length
+  · left; simp [List.getD_eq_getElem?_getD, List.getElem?_eq_getElem h]
+  · right; simp [List.getD_eq_getElem?_getD, List.getElem?_eq_none (by omega : l.length ≤ i)]
+
+
 end C14L
